@@ -35,7 +35,10 @@ impl Gen<'_> {
         loop {
             let x = self.rng.gen_range(0..100);
             let n = match x {
-                0..=19 => leaf("mk", 0, ""),
+                0..=14 => leaf("mk", 0, ""),
+                15..=17 => leaf("Q", 0, ""),
+                18 => leaf("setpp", self.rng.gen_range(0..=2), ""),
+                19 => leaf("sete", self.rng.gen_range(0..=1), ""),
                 20..=30 => leaf("mk", 1, ""),
                 31..=34 => leaf("mk", 3, ""),
                 35..=48 => leaf("P", 0, ""),
@@ -43,9 +46,9 @@ impl Gen<'_> {
                 74..=76 | 86..=92 if self.rng.gen_bool(0.6) => continue,
                 49..=55 => {
                     if c.rank == 0 {
-                        leaf("cmd", 0, if self.rng.gen_bool(0.6) { "f" } else { "g" })
+                        leaf("cmd", self.rng.gen_range(0..=2), if self.rng.gen_bool(0.6) { "f" } else { "g" })
                     } else if c.rank == 1 {
-                        leaf("cmd", 0, "g")
+                        leaf("cmd", self.rng.gen_range(0..=1), "g")
                     } else {
                         continue;
                     }
